@@ -27,92 +27,115 @@ C = M + 'CcmMode'
 
 ALL = ['update', 'encrypt', 'decrypt', 'digest', 'verify']
 NEXTS = {'all': ALL, 'ed': ['encrypt', 'digest'], 'd': ['digest'], 'dv': ['decrypt', 'verify'], 'v': ['verify']}
-CFGS = ('started', 'nn', 'nd', 'dn')
+CFGS = ('nn', 'nd', 'dn', 's1', 's2', 'st')
+PARKED = ('nn', 'nd', 'dn')
 
 # MacStatus.NOT_STARTED / PROCESSING_AUTH_DATA / PROCESSING_PLAINTEXT are 0 / 1 / 2
 
 S = '(self._mac.g_fed + self._cache)'
 OS = '(old(self._mac.g_fed) + old(self._cache))'
+B0 = 'spec.aead2.ccm_b0(self.nonce, self._mac_len, self._assoc_len, self._msg_len)'
+HDR = 'spec.aead2.ccm_hdr(self._assoc_len)'
 AST = 'spec.aead2.ccm_a_start(self._assoc_len)'
 AEND = 'spec.aead2.ccm_a_end(self._assoc_len)'
 PST = 'spec.aead2.ccm_p_start(self._assoc_len)'
-OAST = 'spec.aead2.ccm_a_start(old(self._assoc_len))'
-OPST = 'spec.aead2.ccm_p_start(old(self._assoc_len))'
 MAXLEN = 'spec.aead2.pow256(15 - len(self.nonce))'
 
-# views after a call that leaves the MAC running
-A_NOW = '%s[%s:%s + self._cumul_assoc_len]' % (S, AST, AST)
-A_FULL = '%s[%s:%s + self._assoc_len]' % (S, AST, AST)
-P_NOW = '(%s[%s:] if self._mac_status == 2 else b"")' % (S, PST)
+
+def old_(s):
+    """the same expression over the entry state"""
+    return s.replace('self.', 'old(self).')
 
 
-def views_old(cfg):
-    if cfg == 'started':
-        return ('%s[%s:%s + old(self._cumul_assoc_len)]' % (OS, OAST, OAST),
-                '(%s[%s:] if old(self._mac_status) == 2 else b"")' % (OS, OPST))
-    return 'b"".join(old(self._cache))', 'b""'
+def views(cfg, old=False):
+    """(A, P) as expressions over the state: parked segments, or slices of the MAC stream"""
+    if cfg in PARKED:
+        a, p = 'b"".join(self._cache)', 'b""'
+    elif cfg == 's1':
+        a, p = '%s[%s:]' % (S, AST), 'b""'
+    else:
+        a, p = '%s[%s:%s]' % (S, AST, AEND), '%s[%s:]' % (S, PST)
+    return (old_(a), old_(p)) if old else (a, p)
 
 
+RUNNING = 'self._mac_status != 0 ==> '
 VALID = [
+    # one atom per clause: a conjunction inside a clause is evaluated with Python's short-circuit semantics (path splits)
     'self.block_size == 16',
-    '7 <= len(self.nonce) and len(self.nonce) <= 13',
+    '7 <= len(self.nonce)', 'len(self.nonce) <= 13',
     'self._mac_len in (4, 6, 8, 10, 12, 14, 16)',
-    'len(self._s_0) == 16 and self._s_0 == spec.aead2.ccm_s0(self._key, self.nonce)',
-    'self._mac.g_key == self._key and self._mac.g_iv == bytes(16)',
-    'self._cipher.g_key == self._key and self._cipher.g_ctr0 == spec.aead2.ccm_ctr0(self.nonce)',
+    'len(self._s_0) == 16', 'self._s_0 == spec.aead2.ccm_s0(self._key, self.nonce)',
+    'self._mac.g_key == self._key', 'self._mac.g_iv == bytes(16)', 'len(self._mac.g_fed) % 16 == 0',
+    'self._cipher.g_key == self._key', 'self._cipher.g_ctr0 == spec.aead2.ccm_ctr0(self.nonce)',
     'self._cipher.g_pos == 16 + self._cumul_msg_len',
     'self._mac_status in (0, 1, 2)',
     '(self._mac_status == 0) == (self._assoc_len is None or self._msg_len is None)',
-    'self._msg_len is not None ==> (0 <= self._msg_len and self._msg_len < %s and self._cumul_msg_len <= self._msg_len)' % MAXLEN,
-    'self._assoc_len is not None ==> (0 <= self._assoc_len and self._assoc_len < 2 ** 64 and self._cumul_assoc_len <= self._assoc_len)',
-    '0 <= self._cumul_assoc_len and self._cumul_assoc_len < 2 ** 64 and 0 <= self._cumul_msg_len',
+    'self._msg_len is not None ==> 0 <= self._msg_len',
+    'self._msg_len is not None ==> self._msg_len < %s' % MAXLEN,
+    'self._msg_len is not None ==> self._cumul_msg_len <= self._msg_len',
+    'self._assoc_len is not None ==> 0 <= self._assoc_len',
+    'self._assoc_len is not None ==> self._assoc_len < 2 ** 64',
+    'self._assoc_len is not None ==> self._cumul_assoc_len <= self._assoc_len',
+    '0 <= self._cumul_assoc_len', 'self._cumul_assoc_len < 2 ** 64', '0 <= self._cumul_msg_len',
     # call-order state vs MAC phase
-    '"update" in self._next ==> (self._mac_status != 2 and self._mac_tag is None)',
+    '"update" in self._next ==> self._mac_status != 2',
     '"update" not in self._next ==> self._mac_status != 0',
-    '("encrypt" in self._next or "decrypt" in self._next) ==> self._mac_tag is None',
+    '("update" in self._next or "encrypt" in self._next or "decrypt" in self._next) ==> self._mac_tag is None',
     # parking phase
-    'self._mac_status == 0 ==> (isinstance(self._cache, list) and len(b"".join(self._cache)) == self._cumul_assoc_len '
-    'and self._cumul_msg_len == 0 and self._mac.g_fed == b"" and self._mac_tag is None)',
+    'self._mac_status == 0 ==> isinstance(self._cache, list)',
+    'self._mac_status == 0 ==> len(b"".join(self._cache)) == self._cumul_assoc_len',
+    'self._mac_status == 0 ==> self._cumul_msg_len == 0',
+    'self._mac_status == 0 ==> self._mac.g_fed == b""',
+    'self._mac_status == 0 ==> self._mac_tag is None',
     # MAC running: cache discipline and CBC-MAC value
-    'self._mac_status != 0 ==> (isinstance(self._cache, bytes) and len(self._cache) < 16 and len(self._mac.g_fed) % 16 == 0 '
-    'and len(self._mac.g_fed) >= 16 and self._t == spec.aead2.cbcmac(self._key, self._mac.g_fed))',
-    # MAC running: SP 800-38C A.2 layout of the stream
-    'self._mac_status != 0 ==> (%s[:16] == spec.aead2.ccm_b0(self.nonce, self._mac_len, self._assoc_len, self._msg_len) '
-    'and %s[16:%s] == spec.aead2.ccm_hdr(self._assoc_len))' % (S, S, AST),
-    '(self._mac_status == 1 and self._mac_tag is None) ==> (len(%s) == %s + self._cumul_assoc_len and self._cumul_msg_len == 0)' % (S, AST),
-    '(self._mac_status == 2 and self._mac_tag is None) ==> (self._cumul_assoc_len == self._assoc_len and len(%s) == %s + self._cumul_msg_len)' % (S, PST),
-    'self._mac_status == 2 ==> %s[%s:%s] == rep(b"\\x00", %s - %s)' % (S, AEND, PST, PST, AEND),
-    # cached tag (digest()/verify() are idempotent: it is computed once)
-    'self._mac_tag is not None ==> (self._mac_status != 0 and self._cumul_assoc_len == self._assoc_len and self._cumul_msg_len == self._msg_len '
-    'and self._cache == b"" and len(self._mac_tag) == self._mac_len '
-    'and self._mac_tag == spec.aead2.ccm_tag(self._key, self.nonce, self._mac_len, %s, %s[%s:%s + self._msg_len]))'
-    % (A_FULL, S, PST, PST),
+    RUNNING + 'isinstance(self._cache, bytes)',
+    RUNNING + 'len(self._cache) < 16',
+    RUNNING + 'len(self._mac.g_fed) >= 16',
+    RUNNING + 'self._t == spec.aead2.cbcmac(self._key, self._mac.g_fed)',
+    # MAC running: SP 800-38C A.2 layout of the stream: B_0, the AAD length header, A, zero padding, P
+    RUNNING + '%s.startswith(%s + %s)' % (S, B0, HDR),
+    RUNNING + 'len(%s) == 16' % B0,
+    RUNNING + 'len(%s) == spec.aead2.ccm_hdr_len(self._assoc_len)' % HDR,
+    '(self._mac_status == 1 and self._mac_tag is None) ==> len(%s) == %s + self._cumul_assoc_len' % (S, AST),
+    '(self._mac_status == 1 and self._mac_tag is None) ==> self._cumul_msg_len == 0',
+    '(self._mac_status == 2 and self._mac_tag is None) ==> self._cumul_assoc_len == self._assoc_len',
+    '(self._mac_status == 2 and self._mac_tag is None) ==> len(%s) == %s + self._cumul_msg_len' % (S, PST),
+    '(self._mac_status == 2 and self._mac_tag is None) ==> %s[%s:%s] == rep(b"\\x00", %s - %s)' % (S, AEND, PST, PST, AEND),
+    # cached tag: computed once (digest()/verify() are idempotent); from then on only digest() xor verify() are permitted
+    'self._mac_tag is not None ==> self._mac_status != 0',
+    'self._mac_tag is not None ==> len(self._mac_tag) == self._mac_len',
 ]
+INV = {('inv%02d' % i): cl for i, cl in enumerate(VALID)}        # valid(self) at exit, one obligation per atom
 
 # spec functions that stay uninterpreted outside the functions that establish / consume their definitions
 FMT = ['spec.aead2.ccm_b0', 'spec.aead2.ccm_hdr']
 OPQ = FMT + ['spec.aead2.ccm_tag', 'spec.aead2.ccm_s0', 'spec.aead2.ccm_ctr0']
 
 
-def ccm_class(nxt='all', cfg='started', shape=1):
-    """cfg: 'started' | 'nn' (assoc_len, msg_len both undeclared) | 'nd' (assoc_len undeclared) | 'dn' (msg_len undeclared) | 'init' (no field yet)"""
+def ccm_class(nxt='all', cfg='s1', shape=1):
+    """cfg: 'nn' (assoc_len, msg_len both undeclared) | 'nd' (assoc_len undeclared) | 'dn' (msg_len undeclared): parking phase;
+    's1' / 's2': MAC running, AAD / payload phase, no tag yet; 'st': tag computed; 'init': no field yet"""
     if cfg == 'init':
         return ClassContract(C, fields={}, valid=list(VALID))
     f = {'block_size': 'int', 'nonce': 'bytes', '_factory': FACTORY, '_key': 'bytes', '_mac_len': 'int', '_cipher_params': NO_PARAMS,
-         '_mac_tag': 'bytes|none', '_mac': 'obj:native.CBC', '_mac_status': 'int', '_t': 'bytes|none', '_next': ('const', list(NEXTS[nxt])),
+         '_mac': 'obj:native.CBC', '_t': 'bytes|none', '_next': ('const', list(NEXTS[nxt])),
          '_cumul_assoc_len': 'int', '_cumul_msg_len': 'int', '_cipher': 'obj:native.CTR', '_s_0': 'bytes'}
-    if cfg == 'started':
-        f.update({'_msg_len': 'int', '_assoc_len': 'int', '_cache': 'bytes'})
-    else:
+    if cfg in PARKED:
         f.update({'_assoc_len': 'none' if cfg[0] == 'n' else 'int', '_msg_len': 'none' if cfg[1] == 'n' else 'int',
-                  '_cache': 'list(%s)' % ','.join(['bytes'] * shape), '_mac_tag': 'none'})
+                  '_cache': 'list(%s)' % ','.join(['bytes'] * shape), '_mac_tag': 'none', '_mac_status': ('const', 0)})
+    else:
+        f.update({'_msg_len': 'int', '_assoc_len': 'int', '_cache': 'bytes', '_t': 'bytes',
+                  '_mac_tag': 'bytes' if cfg == 'st' else 'none',
+                  '_mac_status': 'int' if cfg == 'st' else ('const', int(cfg[1]))})
     return ClassContract(C, fields=f, valid=list(VALID))
 
 
-def registry(nxt='all', cfg='started', shape=1, upd='run', data='bytes'):
+def registry(nxt='all', cfg='s1', shape=1, upd='run', data='bytes'):
     reg = registry_with_natives()
     reg.add(ccm_class(nxt, cfg, shape))
-    A_OLD, P_OLD = views_old(cfg)
+    parked = cfg in PARKED
+    A_OLD, P_OLD = views(cfg, old=True)          # in postconditions
+    A_IN, P_IN = views(cfg)                      # in refusal conditions (evaluated over the entry state)
     RUN_MOD = {'self._cache': 'bytes', 'self._t': 'bytes', 'self._mac.g_fed': 'bytes'}
     RUN_PRE = ['self.block_size == 16', 'self._mac_status != 0',
                'isinstance(self._cache, bytes) and len(self._cache) < 16 and len(self._mac.g_fed) % 16 == 0 and self._mac.g_iv == bytes(16)',
@@ -143,7 +166,6 @@ def registry(nxt='all', cfg='started', shape=1, upd='run', data='bytes'):
                      modifies=RUN_MOD, options={'assume_valid': False}))
     # ------------------------------------------------------------------------------------------------ _start_mac
     # A.2.1/A.2.2: B_0 and the encoded AAD length go first, then everything parked so far
-    B0 = 'spec.aead2.ccm_b0(self.nonce, self._mac_len, self._assoc_len, self._msg_len)'
     reg.add(Contract(C + '._start_mac', params={},
                      requires=['self.block_size == 16', 'self._mac_status == 0', 'isinstance(self._cache, list)',
                                'self._assoc_len is not None and self._msg_len is not None',
@@ -154,22 +176,22 @@ def registry(nxt='all', cfg='started', shape=1, upd='run', data='bytes'):
                      raises={},
                      ensures=dict(RUN_POST, status='self._mac_status == 1',
                                   b0_len='len(%s) == 16' % B0,
-                                  hdr_len='len(spec.aead2.ccm_hdr(self._assoc_len)) == spec.aead2.ccm_hdr_len(self._assoc_len)',
-                                  stream='%s == %s + spec.aead2.ccm_hdr(self._assoc_len) + b"".join(old(self._cache))' % (S, B0),
+                                  hdr_len='len(%s) == spec.aead2.ccm_hdr_len(self._assoc_len)' % HDR,
+                                  stream='%s == %s + %s + b"".join(old(self._cache))' % (S, B0, HDR),
                                   started='len(self._mac.g_fed) >= 16'),
                      modifies={'self._cache.*': 'none', 'self._cache': 'bytes', 'self._t': 'bytes', 'self._mac.g_fed': 'bytes', 'self._mac_status': 'int'},
                      # proof steps over the locals of _start_mac (a renamed local makes them untranslatable = undecided, never a violation)
                      lemmas={'exit': {'flags': 'flags == spec.aead2.ccm_flags(self._mac_len, 15 - len(self.nonce), self._assoc_len)',
                                       'b0': 'b_0 == %s' % B0,
                                       'b0_len': 'len(b_0) == 16',
-                                      'hdr': 'assoc_len_encoded == spec.aead2.ccm_hdr(self._assoc_len)',
+                                      'hdr': 'assoc_len_encoded == %s' % HDR,
                                       'first': 'first_data_to_mac == b_0 + assoc_len_encoded + b"".join(old(self._cache))',
                                       'fed': '%s == first_data_to_mac' % S,
                                       'total': 'len(self._mac.g_fed) + len(self._cache) >= 16'}},
                      bv_width=8, options={'assume_valid': False}))
     # ------------------------------------------------------------------------------------------------ update (C09, C10)
     aad_long = '(self._assoc_len is not None and self._cumul_assoc_len + len(assoc_data) > self._assoc_len)'
-    parked_exit = cfg != 'started'
+    A_EXIT = views(cfg if cfg in PARKED + ('s1',) else 's1')[0]
     reg.add(Contract(C + '.update', params={'assoc_data': data},
                      requires=['self._cumul_assoc_len + len(assoc_data) < 2 ** 64'],          # scope note (2)
                      raises={'TypeError': ('iff', '"update" not in self._next'),
@@ -177,60 +199,75 @@ def registry(nxt='all', cfg='started', shape=1, upd='run', data='bytes'):
                      unchanged_on_raise=['TypeError'],
                      ensures={'next': 'self._next == ["update", "encrypt", "decrypt", "digest", "verify"]',
                               'self': 'result is self',
-                              'aad': '%s == %s + assoc_data' % ('b"".join(self._cache)' if parked_exit else A_NOW, A_OLD),
+                              'aad': '%s == %s + assoc_data' % (A_EXIT, A_OLD),
                               'count': 'self._cumul_assoc_len == old(self._cumul_assoc_len) + len(assoc_data)',
                               'kept': 'self._assoc_len == old(self._assoc_len) and self._msg_len == old(self._msg_len) and self._mac_status == old(self._mac_status)',
-                              'valid': 'valid(self)'},
-                     lemmas={'exit': ({} if parked_exit else {'stream': '%s == %s + assoc_data' % (S, OS)})},
+                              **INV},
+                     lemmas={'exit': ({} if parked else {'stream': '%s == %s + assoc_data' % (S, OS)})},
                      modifies=['self._next', 'self._cumul_assoc_len', 'self._cache.*', 'self._cache', 'self._t', 'self._mac.g_fed'],
-                     inline=[C + '._update'] if parked_exit else [], opaque=OPQ))
+                     inline=[C + '._update'] if parked else [], opaque=OPQ))
     # ------------------------------------------------------------------------------------------------ encrypt / decrypt (C01, C02, C09, C10, C11)
     aad_short = '(self._assoc_len is not None and self._cumul_assoc_len < self._assoc_len)'
+    A2, P2 = views('s2')
     for kind, arg in (('encrypt', 'plaintext'), ('decrypt', 'ciphertext')):
         too_long = '(self._msg_len is None and len(%s) >= %s)' % (arg, MAXLEN)                     # C11: 2**(8q) limit
         beyond = '(self._msg_len is not None and self._cumul_msg_len + len(%s) > self._msg_len)' % arg
         nxt_decl = '["encrypt", "digest"]' if kind == 'encrypt' else '["decrypt", "verify"]'
         nxt_und = '["digest"]' if kind == 'encrypt' else '["verify"]'
         msg = arg if kind == 'encrypt' else 'result'          # the MAC always runs over the plaintext
+        if cfg == 's2':
+            steps = {'stream': '%s == %s + %s' % (S, OS, msg)}
+        elif cfg == 's1':
+            steps = {'stream': '%s == %s + spec.aead2.zpad(len(%s)) + %s' % (S, OS, OS, msg), 'a_end': 'len(%s) == %s' % (OS, AEND)}
+        else:
+            steps = {'stream': '%s == %s + %s + %s + spec.aead2.zpad(%s) + %s' % (S, B0, HDR, A_OLD, AEND, msg),
+                     'a_end': 'len(%s) + len(%s) + len(%s) == %s' % (B0, HDR, A_OLD, AEND)}
         reg.add(Contract(C + '.' + kind, params={arg: data, 'output': 'none'},
                          raises={'TypeError': ('iff', '"%s" not in self._next' % kind),
                                  'ValueError': ('iff', '"%s" in self._next and (%s or %s or %s)' % (kind, aad_short, too_long, beyond))},
                          unchanged_on_raise=['TypeError'],
                          ensures={'next': 'self._next == (%s if old(self._msg_len) is not None else %s)' % (nxt_decl, nxt_und),
                                   'result': 'result == spec.aead2.ccm_crypt(self._key, self.nonce, old(self._cumul_msg_len), %s)' % arg,
-                                  'aad_kept': '%s == %s and self._cumul_assoc_len == old(self._cumul_assoc_len)' % (A_NOW, A_OLD),
-                                  'msg': '%s == %s + %s and self._cumul_msg_len == old(self._cumul_msg_len) + len(%s)' % (P_NOW, P_OLD, msg, arg),
+                                  'aad_kept': '%s == %s and self._cumul_assoc_len == old(self._cumul_assoc_len)' % (A2, A_OLD),
+                                  'msg': '%s == %s + %s and self._cumul_msg_len == old(self._cumul_msg_len) + len(%s)' % (P2, P_OLD, msg, arg),
                                   'lens': 'self._assoc_len == (old(self._assoc_len) if old(self._assoc_len) is not None else old(self._cumul_assoc_len)) and '
                                           'self._msg_len == (old(self._msg_len) if old(self._msg_len) is not None else len(%s))' % arg,
-                                  'phase': 'self._mac_status == 2',
-                                  'valid': 'valid(self)'},
+                                  'phase': 'self._mac_status == 2', **INV},
+                         lemmas={'exit': steps},
                          modifies=['self._next', 'self._assoc_len', 'self._msg_len', 'self._cumul_msg_len', 'self._mac_status',
                                    'self._cache.*', 'self._cache', 'self._t', 'self._mac.g_fed', 'self._cipher.g_pos'],
-                         opaque=OPQ))
+                         opaque=OPQ + ['spec.aead2.ccm_crypt']))
     # ------------------------------------------------------------------------------------------------ _digest / digest / verify (C01, C10)
+    # the tag of SP 800-38C 6.1 for the associated data and payload seen so far; refused when data is short of the declared lengths;
+    # once computed, the cached tag is returned / compared and nothing changes
     msg_short = '(self._msg_len is not None and self._cumul_msg_len != self._msg_len)'
     refuse = '(self._mac_tag is None and (%s or %s))' % (aad_short, msg_short)
-    TAG_OLD = 'spec.aead2.ccm_tag(self._key, self.nonce, self._mac_len, %s, %s)' % (A_OLD, P_OLD)
-    DIG_MOD = ['self._assoc_len', 'self._msg_len', 'self._mac_status', 'self._mac_tag', 'self._cache.*', 'self._cache', 'self._t', 'self._mac.g_fed']
-    DIG_POST = {'tag': 'self._mac_tag == %s and len(self._mac_tag) == self._mac_len' % TAG_OLD,
-                'cached': 'old(self._mac_tag) is not None ==> self._mac_tag == old(self._mac_tag)',
-                'views': '%s == %s and self._cumul_assoc_len == self._assoc_len and self._cumul_msg_len == self._msg_len' % (A_FULL, A_OLD),
-                'valid': 'valid(self)'}
+    if cfg == 'st':
+        TAG_OLD = TAG_IN = 'self._mac_tag'
+        TAG_OLD = 'old(self._mac_tag)'
+        post = dict(INV, tag='self._mac_tag == old(self._mac_tag)')
+        DIG_MOD = []
+    else:
+        TAG_OLD = 'spec.aead2.ccm_tag(self._key, self.nonce, self._mac_len, %s, %s)' % (A_OLD, P_OLD)
+        TAG_IN = 'spec.aead2.ccm_tag(self._key, self.nonce, self._mac_len, %s, %s)' % (A_IN, P_IN)
+        post = {'tag': 'self._mac_tag == %s and len(self._mac_tag) == self._mac_len' % TAG_OLD,
+                'lens': 'self._cumul_assoc_len == self._assoc_len and self._cumul_msg_len == self._msg_len and self._assoc_len == old(self._cumul_assoc_len) '
+                        'and self._msg_len == old(self._cumul_msg_len)', **INV}
+        DIG_MOD = ['self._assoc_len', 'self._msg_len', 'self._mac_status', 'self._mac_tag', 'self._cache.*', 'self._cache', 'self._t', 'self._mac.g_fed']
     reg.add(Contract(C + '._digest', params={}, requires=['valid(self)'],
                      raises={'ValueError': ('iff', refuse)},
-                     ensures=dict(DIG_POST, result='result == self._mac_tag'),
+                     ensures=dict(post, result='result == self._mac_tag'),
                      modifies=DIG_MOD, opaque=FMT + ['spec.aead2.ccm_s0', 'spec.aead2.ccm_ctr0']))
     reg.add(Contract(C + '.digest', params={},
                      raises={'TypeError': ('iff', '"digest" not in self._next'), 'ValueError': ('iff', '"digest" in self._next and ' + refuse)},
                      unchanged_on_raise=['TypeError'],
-                     ensures=dict(DIG_POST, result='result == self._mac_tag', next='self._next == ["digest"]'),
+                     ensures=dict(post, result='result == self._mac_tag', next='self._next == ["digest"]'),
                      modifies=DIG_MOD + ['self._next'], opaque=OPQ))
     reg.add(Contract(C + '.verify', params={'received_mac_tag': data},
                      raises={'TypeError': ('iff', '"verify" not in self._next'),
-                             'ValueError': ('iff', '"verify" in self._next and (%s or received_mac_tag != (self._mac_tag if self._mac_tag is not None else %s))'
-                                            % (refuse, TAG_OLD.replace('old(', '(')))},
+                             'ValueError': ('iff', '"verify" in self._next and (%s or received_mac_tag != %s)' % (refuse, TAG_IN))},
                      unchanged_on_raise=['TypeError'],
-                     ensures=dict(DIG_POST, next='self._next == ["verify"]', accepted='received_mac_tag == self._mac_tag', result='result is None'),
+                     ensures=dict(post, next='self._next == ["verify"]', accepted='received_mac_tag == self._mac_tag', result='result is None'),
                      modifies=DIG_MOD + ['self._next'], opaque=OPQ))
     return reg
 
